@@ -42,6 +42,13 @@ def run(tier):
             cases.append(dict(base, id="s%d_%d" % (k, gi), rules=rt([rule]), generator=gen, targets=[p["construct"]], all_rules=False, cfg="single"))
         for oi, order in enumerate(orders if (tier == "thorough" or k % 4 == 0) else orders[:1]):
             cases.append(dict(base, id="a%d_%d" % (k, oi), rules=rt(order), generator=rng.choice(gens), targets=TARGETS_ALL, all_rules=True, cfg="all"))
+        # the same program as a REQUIRED MODULE of a bundled entry file: the rules meet the construct in nodes that were not
+        # parsed from the text of the file being processed (and the bundler itself may add type syntax)
+        module_ok = not any(ln.startswith("return") for ln in p["src"].splitlines())    # the driver appends the module's `return 0`
+        if module_ok and (tier == "thorough" or k % 3 == 1):
+            cases.append(dict(base, id="bs%d" % k, rules=rt([rule]), generator=gens[k % len(gens)], targets=[p["construct"]], all_rules=False, cfg="single", bundled=True))
+        if module_ok and (tier == "thorough" or k % 5 == 2):
+            cases.append(dict(base, id="ba%d" % k, rules=rt(orders[k % len(orders)]), generator=gens[k % len(gens)], targets=TARGETS_ALL, all_rules=True, cfg="all", bundled=True))
     cp = os.path.join(rep.wd, "cases.ndjson")
     write_ndjson(cp, cases)
     op = os.path.join(rep.wd, "obs.ndjson")
@@ -68,7 +75,7 @@ def run(tier):
         if not ver["ok"]:
             sig = {"kind": "census", "cfg": o["cfg"], "rules": o["rules"] if o["cfg"] == "single" else "all", "construct": o["construct"], "left": ver["left"],
                    "strict51": ver["strict"], "pkind": o["pkind"], "position": o["position"], "construct_index": o["construct_index"], "status": o["status"][:120]}
-            rep.violation(sig, {k: o[k] for k in ("id", "src", "rules", "generator", "targets", "all_rules", "out", "census_in", "census_out", "status", "cfg", "pkind", "position", "construct_index", "construct")})
+            rep.violation(sig, {k: o[k] for k in ("id", "src", "rules", "generator", "targets", "all_rules", "out", "census_in", "census_out", "status", "cfg", "pkind", "position", "construct_index", "construct", "bundled") if k in o})
     if rejected_in > len(cases) // 20 or failed_rule > len(cases) // 10:
         raise vlib.ToolError("%d inputs rejected by the reference parser, %d pipelines failed, of %d" % (rejected_in, failed_rule, len(cases)))
     if nontrivial < len(cases) * 0.8:
@@ -89,7 +96,7 @@ def replay(path, tier):
     rep = Report(PID, tier, "exploration")
     with open(path) as f:
         c = json.load(f)["case"]
-    case = {k: c[k] for k in ("id", "src", "rules", "generator", "targets", "all_rules", "cfg", "pkind", "position", "construct_index", "construct")}
+    case = {k: c[k] for k in ("id", "src", "rules", "generator", "targets", "all_rules", "cfg", "pkind", "position", "construct_index", "construct", "bundled") if k in c}
     cp = os.path.join(rep.wd, "replay-cases.ndjson")
     write_ndjson(cp, [case])
     op = os.path.join(rep.wd, "replay-obs.ndjson")
